@@ -120,7 +120,11 @@ func body(sp spec) {
 			from = msgs[0].Metadata.Get("from")
 		}
 		po := hx.PubOutcome(vs.Choose(5, 0, "publisher outcome")) // ok, error, panic, error after accepting, error wrapping context.Canceled
-		pubOutcome[from] = po
+		// the outputs of one consumed message may reach the publisher in one call or in several: they count as
+		// accepted only if every one of those calls succeeded
+		if prev, seen := pubOutcome[from]; !seen || prev == hx.PubOK {
+			pubOutcome[from] = po
+		}
 		return po
 	}
 	probes := map[string]string{}
@@ -130,7 +134,9 @@ func body(sp spec) {
 		}
 		from := c.Msgs[0].Metadata.Get("from")
 		if iv := inv[from]; iv != nil {
-			probes[from] = hx.SettlementOf(iv.copy)
+			if prev, seen := probes[from]; !seen || prev == "unsettled" {
+				probes[from] = hx.SettlementOf(iv.copy)
+			}
 		}
 		return ""
 	}
@@ -237,16 +243,26 @@ func body(sp spec) {
 		}
 		cs := callFor[d.UUID]
 		if e.publish {
-			if len(cs) != 1 {
-				vs.Fail("publish-calls", "message %s behaviour %q: %d Publish calls, expected 1", d.UUID, iv.b, len(cs))
-			} else if len(cs[0].Msgs) != e.nout {
-				vs.Fail("publish-calls", "message %s behaviour %q: Publish got %d messages, expected %d", d.UUID, iv.b, len(cs[0].Msgs), e.nout)
-			} else {
-				for i, m := range cs[0].Msgs {
-					if m.UUID != fmt.Sprintf("%s/out%d", d.UUID, i) {
-						vs.Fail("publish-calls", "message %s: output %d is %q (order or identity changed)", d.UUID, i, m.UUID)
-					}
+			// in order and unmodified, in one call or several; after a failed call the rest may be withheld
+			var got []string
+			failed := false
+			for _, c := range cs {
+				for _, m := range c.Msgs {
+					got = append(got, m.UUID)
 				}
+				failed = failed || c.Outcome != hx.PubOK
+			}
+			var want []string
+			for i := 0; i < e.nout; i++ {
+				want = append(want, fmt.Sprintf("%s/out%d", d.UUID, i))
+			}
+			switch {
+			case len(cs) == 0:
+				vs.Fail("publish-calls", "message %s behaviour %q: no Publish call, expected its %d outputs", d.UUID, iv.b, e.nout)
+			case len(got) > len(want) || fmt.Sprint(got) != fmt.Sprint(want[:len(got)]):
+				vs.Fail("publish-calls", "message %s behaviour %q: published %v, the handler returned %v (order or identity changed)", d.UUID, iv.b, got, want)
+			case len(got) < len(want) && !failed:
+				vs.Fail("publish-calls", "message %s behaviour %q: only %v of %v were published although no Publish call failed", d.UUID, iv.b, got, want)
 			}
 			if p := probes[d.UUID]; p != "unsettled" && iv.b != hx.BAckOK && iv.b != hx.BNackOK {
 				vs.Fail("ack-after-publish", "message %s was already %s while its outputs were being published", d.UUID, p)
